@@ -224,7 +224,8 @@ def run_job(job, workdir):
     if unwinding_failed:
         res["reason"] = "unwinding assertion failed (bound too small)"
         return res
-    if reach_failed and reach_missed:
+    if reach_failed and reach_missed and not failed:
+        # (partial vacuity matters for a pass only: an obligation that was decided false stays a violation)
         res["status"] = "undecided"
         res["reason"] = "VACUOUS: reach point(s) not reachable: " + ", ".join(reach_missed[:5])
         return res
